@@ -47,6 +47,10 @@ class Expression(Node):
                 e = e[1:] if e.startswith('-') else '-' + e
                 negate = False
             parts.append(e)
+        if len(parts) != 3:
+            # an operand that is a list (`@x: 1px 2px; ... @x + 1`)
+            raise SyntaxError('Illegal element in expression `%s`' % ' '.join(
+                str(p) for p in parts))
         A, O, B = parts
         try:
             a, ua = utility.analyze_number(A, 'Illegal element in expression')
